@@ -373,3 +373,82 @@ func min64(a uint64, b uint64) uint64 {
 	}
 	return b
 }
+
+// TestC13Concurrent: submissions, removals, producer fetches, existence queries and statistics run
+// concurrently from several goroutines against one pool (the operations the pool's actor and its
+// verifier workers really interleave); the bookkeeping invariants are checked at quiescence.
+// With the race detector (thorough tier) any unsynchronised access is reported by the runtime.
+func TestC13Concurrent(t *testing.T) {
+	rec := ev.New("C13", "concurrent")
+	defer rec.Flush()
+	rapid.Check(t, func(t *rapid.T) {
+		nusers := 3
+		opts := vnode.WorldOpts{Consensus: "sbp", Public: false, NUsers: nusers, NBPs: 1, Magic: "verif.c13c"}
+		N, err := vnode.Open(vnode.NewSpec(opts), "")
+		if err != nil {
+			t.Fatal(err)
+		}
+		defer N.Remove()
+		N.SwitchTo()
+		m := &machine{t: t, N: N, nusers: nusers, made: map[string]*types.Tx{}}
+		m.mp = mempool.VerifNew(N.CS.VerifCfg(), N.CS, N.Best())
+		cid := m.mp.VerifAcceptChainIDHash()
+		workers := rapid.IntRange(2, 6).Draw(t, "workers")
+		type job struct {
+			kind string
+			tx   *types.Tx
+		}
+		plans := make([][]job, workers)
+		var all []*types.Tx
+		for w := 0; w < workers; w++ {
+			n := rapid.IntRange(3, 12).Draw(t, "njobs")
+			for i := 0; i < n; i++ {
+				switch k := rapid.SampledFrom([]string{"put", "put", "put", "get", "exist", "size", "remove"}).Draw(t, "job"); k {
+				case "put":
+					u := rapid.IntRange(0, nusers-1).Draw(t, "user")
+					tx := m.mkTx(u, uint64(rapid.IntRange(1, 8).Draw(t, "nonce")), rapid.IntRange(0, 1).Draw(t, "variant"), cid)
+					all = append(all, tx)
+					plans[w] = append(plans[w], job{kind: k, tx: tx})
+				case "remove", "exist":
+					if len(all) == 0 {
+						continue
+					}
+					plans[w] = append(plans[w], job{kind: k, tx: rapid.SampledFrom(all).Draw(t, "target")})
+				default:
+					plans[w] = append(plans[w], job{kind: k})
+				}
+			}
+		}
+		done := make(chan struct{})
+		start := make(chan struct{})
+		for w := 0; w < workers; w++ {
+			go func(js []job) {
+				<-start
+				for _, j := range js {
+					switch j.kind {
+					case "put":
+						m.mp.VerifAdmit(j.tx)
+					case "remove":
+						m.mp.VerifRemoveTx(j.tx)
+					case "exist":
+						m.mp.VerifExist(j.tx.GetHash())
+					case "get":
+						m.mp.VerifGet(1 << 30)
+					case "size":
+						m.mp.Size()
+					}
+				}
+				done <- struct{}{}
+			}(plans[w])
+		}
+		close(start)
+		for w := 0; w < workers; w++ {
+			<-done
+		}
+		m.hist = []string{fmt.Sprintf("%d workers, %d submissions", workers, len(all))}
+		m.check("at quiescence after concurrent operations")
+		rec.Case(fmt.Sprintf("workers=%d", workers), fmt.Sprintf("%d|%d|%v", workers, len(all), plans), workers >= 3 && len(all) >= 6, func() interface{} {
+			return map[string]interface{}{"workers": workers, "submissions": len(all)}
+		})
+	})
+}
